@@ -142,6 +142,10 @@ def f42():
 
 case("F42 ReindexStrategy(blockwise=True) with an arg reduction", f42, lambda r: False, refusal_ok=True)
 
+# F43
+case("F43 any with a negative fill, finalizer reindex", lambda: groupby_reduce(da.from_array(np.arange(6.) > 2, chunks=2), np.array([1, 1, 2, 2, 5, 5]), func="any", expected_groups=np.array([0, 1, 2, 3]), fill_value=-1, method="map-reduce", reindex=False)[0].compute().tolist(), lambda r: r == [-1, 0, 1, -1])
+case("F43 count with a fractional fill, finalizer reindex", lambda: groupby_reduce(da.from_array(np.arange(6.), chunks=2), np.array([1, 1, 2, 2, 5, 5]), func="count", expected_groups=np.array([0, 1, 2, 3]), fill_value=0.5, method="map-reduce", reindex=False)[0].compute().tolist(), lambda r: r == [0.5, 2.0, 2.0, 0.5])
+
 bad = 0
 for name, verdict in results:
     print(f"{name:55s} {verdict}")
